@@ -473,6 +473,63 @@ def pair_specs(draw):
 
 
 @st.composite
+def frameshift_pair_specs(draw):
+    """ a location whose parts share bases with each other (a programmed frameshift: the next exon starts 1-2 bases
+        before the previous one ends; or a short exon repeated inside a longer one), paired with its own hull, a hull
+        one base wider or narrower on either side, one of its own parts, or another arc: still a set of bases, and
+        'contains' is still decided part by part """
+    length = draw(gen.lengths(12, 3000))
+    count = draw(st.integers(2, 4))
+    strand = draw(st.sampled_from([1, -1]))
+    budget = max(count * 3, min(length, draw(st.sampled_from([12, 30, 90, length]))))
+    start = draw(st.integers(0, length - min(budget, length)))
+    parts = []
+    pos = start
+    for index in range(count):
+        size = draw(st.integers(3, max(3, (budget // count))))
+        end = min(length, pos + size)
+        if end - pos < 1:
+            break
+        parts.append([pos, end])
+        step = draw(st.sampled_from(["overlap1", "overlap2", "overlap1", "inside", "gap"]))
+        if step == "inside" and end - pos >= 3:
+            pos = pos + 1           # the next part starts inside this one (and may end inside it too)
+        elif step == "gap":
+            pos = end + draw(st.integers(0, 3))
+        else:
+            pos = max(pos + 1, end - (1 if step == "overlap1" else 2))
+        if pos >= length:
+            break
+    # no two parts may end on the same base (Feature refuses exons sharing a stop codon)
+    seen, kept = set(), []
+    for part in parts:
+        if part[1] not in seen:
+            seen.add(part[1])
+            kept.append(part)
+    parts = kept
+    inner = {"parts": gen._order_parts(parts, strand), "strand": strand, "kind": "multi"}  # pylint: disable=protected-access
+    low, high = min(p[0] for p in parts), max(p[1] for p in parts)
+    choice = draw(st.sampled_from(["hull", "hull", "wider", "narrow_left", "narrow_right", "part", "arc"]))
+    if choice == "hull":
+        outer_parts = [[low, high]]
+    elif choice == "wider":
+        outer_parts = [[max(0, low - 1), min(length, high + 1)]]
+    elif choice == "narrow_left":
+        outer_parts = [[min(low + 1, high - 1), high]]
+    elif choice == "narrow_right":
+        outer_parts = [[low, max(high - 1, low + 1)]]
+    elif choice == "part":
+        outer_parts = [list(draw(st.sampled_from(parts)))]
+    else:
+        outer_parts = None
+    outer = draw(gen.arc(length, allow_span=False)) if outer_parts is None else \
+        {"parts": outer_parts, "strand": draw(st.sampled_from([1, -1])), "kind": "simple"}
+    if draw(st.booleans()):
+        return {"L": length, "a": outer, "b": inner}
+    return {"L": length, "a": inner, "b": outer}
+
+
+@st.composite
 def big_pair_specs(draw):
     """ short locations on very long records (interval arithmetic only, no base sets) """
     length = draw(st.sampled_from([10 ** 4, 10 ** 5 + 1, 10 ** 6, 10 ** 7 - 3, 2 ** 24]))
@@ -586,6 +643,7 @@ def run(ctx) -> None:
     rand_shards = ctx.pick(4, 16)
     ctx.hyp("pair", pair_specs(), max_examples=ctx.pick(2000, 60000), shards=rand_shards)
     ctx.hyp("pair", big_pair_specs(), max_examples=ctx.pick(600, 20000), shards=rand_shards)
+    ctx.hyp("pair", frameshift_pair_specs(), max_examples=ctx.pick(600, 20000), shards=rand_shards)
     ctx.hyp("offset", big_offset_specs(), max_examples=ctx.pick(400, 10000), shards=rand_shards)
     ctx.hyp("offset", touching_offset_specs(), max_examples=ctx.pick(600, 15000), shards=rand_shards)
     ctx.hyp("connect", connect_specs(), max_examples=ctx.pick(1500, 40000), shards=rand_shards)
